@@ -229,8 +229,8 @@ func httpParts(c *Case) (method, path string, hdr http.Header, body []byte) {
 // grpcBody frames the request messages of a case.
 func grpcBody(c *Case) []byte {
 	var b []byte
-	for _, m := range c.Reqs {
-		if c.Gzip {
+	for i, m := range c.Reqs {
+		if c.flagged(i) {
 			b = append(b, wire.Frame(wire.Gzip(m), true)...)
 		} else {
 			b = append(b, wire.Frame(m, false)...)
